@@ -54,12 +54,22 @@ def case_strategy(draw, tier):
         c["bounds"] = bounds
         if loader == "function":
             c["fseed"] = draw(st.integers(0, 10 ** 6))
+            if draw(st.booleans()):
+                # an earlier function loader with another joint function on an overlapping box, same process
+                c["earlier_fseed"] = draw(st.integers(0, 10 ** 6))
         else:
             ms = [draw(marginal_spec()) for _ in range(T)]
             for m, b in zip(ms, bounds):
                 if m["kind"] in ("power_law", "cutoff") and b[0] < 1:
                     b[0] += 1
                     b[1] += 1
+            if T >= 2 and draw(st.integers(0, 2)) == 0:
+                # the same callable object and the same bounds for every topology
+                ms = [ms[0]] * T
+                c["bounds"] = bounds = [list(bounds[0]) for _ in range(T)]
+                if ms[0]["kind"] in ("power_law", "cutoff") and bounds[0][0] < 1:
+                    c["bounds"] = bounds = [[b[0] + 1, b[1] + 1] for b in bounds]
+                c["share_callable"] = True
             c["marginals"] = ms
             if loader == "marginal_sampling":
                 c["n_samples"] = 20000
@@ -104,11 +114,19 @@ def build(case):
         p[JN.JDS] = [tuple(x) for x in case["jds"]]
         cls, typ = JointDegreeEmpirical, JointDegreeType.EMPIRICAL
     elif ld == "function":
+        if "earlier_fseed" in case:
+            call("construct-earlier", JointDegreeFunction,
+                 {JN.MOTIF_SIZES: list(case["sizes"]), JN.LOW_HIGH_DEGREE_BOUND: [tuple(b) for b in case["bounds"]],
+                  JN.FP: lambda jd, s=case["earlier_fseed"]: positive(s, *[int(x) for x in jd])})
         p[JN.FP] = lambda jd, s=case["fseed"]: positive(s, *[int(x) for x in jd])
         p[JN.LOW_HIGH_DEGREE_BOUND] = [tuple(b) for b in case["bounds"]]
         cls, typ = JointDegreeFunction, JointDegreeType.JOINT_FUNCTION
     else:
-        p[JN.ARR_FP] = [call("marginal-factory", make_marginal, m) for m in case["marginals"]]
+        if case.get("share_callable"):
+            f0 = call("marginal-factory", make_marginal, case["marginals"][0])
+            p[JN.ARR_FP] = [f0] * len(case["marginals"])
+        else:
+            p[JN.ARR_FP] = [call("marginal-factory", make_marginal, m) for m in case["marginals"]]
         p[JN.LOW_HIGH_DEGREE_BOUND] = [tuple(b) for b in case["bounds"]]
         if ld == "marginal_sampling":
             p[JN.USE_SAMPLING] = True
@@ -156,6 +174,10 @@ def check(case):
         if not (v >= 0):
             raise Violation("negative-mass", f"mass {v!r} at {k}")
     classes = {"loader_" + ld, "path_" + case["path"]}
+    if case.get("share_callable"):
+        classes.add("shared_marginal_callable")
+    if "earlier_fseed" in case:
+        classes.add("earlier_function_loader")
     if ld == "manual":
         want = {tuple(k): w for k, w in case["jdd"]}
         if jdd != want:
